@@ -49,7 +49,27 @@ namespace cnl {
         [[nodiscard]] constexpr auto operator()(Lhs const& lhs, Rhs const& rhs) const
                 -> decltype(lhs / rhs)
         {
-            return (((lhs < 0) ^ (rhs < 0)) ? lhs - (rhs / 2) : lhs + (rhs / 2)) / rhs;
+            // adjust the truncated quotient using the remainder
+            // rather than biasing the dividend, which can overflow
+            auto const quotient = lhs / rhs;
+            auto const remainder = lhs % rhs;
+            if (remainder == 0) {
+                return quotient;
+            }
+            if ((remainder < 0) == (rhs < 0)) {
+                // positive quotient; round up iff |remainder| >= |rhs| - |remainder|
+                auto const rest = rhs - remainder;
+                if ((rhs < 0) ? (remainder <= rest) : (remainder >= rest)) {
+                    return quotient + 1;
+                }
+                return quotient;
+            }
+            // negative quotient; round down iff |remainder| >= |rhs| - |remainder|
+            auto const rest = rhs + remainder;
+            if ((rhs < 0) ? (rest + remainder >= 0) : (rest + remainder <= 0)) {
+                return quotient - 1;
+            }
+            return quotient;
         }
     };
 
